@@ -77,9 +77,42 @@ pub trait Serialize {
     fn to_writer<W: io::Write>(&self, writer: &mut W) -> (r: errors::Result<()>)
         requires self.ser_inv(),
         ensures match r {
-            Ok(_) => final(writer).out() == old(writer).out() + self.wire(),
+            Ok(_) => (*final(writer)).out() == (*old(writer)).out() + self.wire(),
             Err(_) => true };
     fn write_len(&self) -> (r: usize)
         requires self.ser_inv(),
         ensures r == self.wire().len();
+}
+
+//@trusted T2 std: `impl Read for &[u8]` / `impl BufRead for &[u8]`: the remaining content of a byte-slice reader is the slice itself; `impl Write for Vec<u8>` appends; `impl Write for &mut W` forwards
+impl io::Read for &[u8] {
+    open spec fn rest(&self) -> Seq<u8> { (*self)@ }
+    #[verifier::external_body]
+    fn read(&mut self, buf: &mut [u8]) -> (r: io::Result<usize>) { unimplemented!() }
+}
+impl io::BufRead for &[u8] {
+    open spec fn buffered(&self) -> nat { (*self)@.len() }
+    proof fn buffered_le_rest(&self) {}
+    #[verifier::external_body]
+    fn fill_buf(&mut self) -> (r: io::Result<&[u8]>) { unimplemented!() }
+    #[verifier::external_body]
+    fn consume(&mut self, amt: usize) { unimplemented!() }
+}
+impl io::Write for Vec<u8> {
+    open spec fn out(&self) -> Seq<u8> { self@ }
+    #[verifier::external_body]
+    fn write(&mut self, buf: &[u8]) -> (r: io::Result<usize>) { unimplemented!() }
+    #[verifier::external_body]
+    fn write_all(&mut self, buf: &[u8]) -> (r: io::Result<()>) { unimplemented!() }
+    #[verifier::external_body]
+    fn flush(&mut self) -> (r: io::Result<()>) { unimplemented!() }
+}
+impl<W: io::Write> io::Write for &mut W {
+    open spec fn out(&self) -> Seq<u8> { (**self).out() }
+    #[verifier::external_body]
+    fn write(&mut self, buf: &[u8]) -> (r: io::Result<usize>) { unimplemented!() }
+    #[verifier::external_body]
+    fn write_all(&mut self, buf: &[u8]) -> (r: io::Result<()>) { unimplemented!() }
+    #[verifier::external_body]
+    fn flush(&mut self) -> (r: io::Result<()>) { unimplemented!() }
 }
